@@ -104,6 +104,20 @@ func (e *gfP) Unmarshal(in []byte) {
 	}
 }
 
+// inRange reports whether the (non-Montgomery) value just unmarshalled is a
+// canonical field element, i.e. strictly below the modulus p.
+func (e *gfP) inRange() bool {
+	for i := 3; i >= 0; i-- {
+		if e[i] < p2[i] {
+			return true
+		}
+		if e[i] > p2[i] {
+			return false
+		}
+	}
+	return false
+}
+
 func montEncode(c, a *gfP) { gfpMul(c, a, r2) }
 func montDecode(c, a *gfP) { gfpMul(c, a, &gfP{1}) }
 
